@@ -223,9 +223,9 @@ def edit(rng, nb, n_edits=None, shapes=None, focus=None, kinds=None):
     return nb
 
 
-def triple(rng, max_cells=4, shapes=None, overlap=0.5, minor=None):
+def triple(rng, max_cells=4, shapes=None, overlap=0.5, minor=None, kinds=None):
     base = notebook(rng, max_cells, minor, shapes)
     focus = rng.randrange(max(1, len(base["cells"]))) if rng.random() < overlap else None
-    local = edit(rng, base, shapes=shapes, focus=focus)
-    remote = edit(rng, base, shapes=shapes, focus=focus)
+    local = edit(rng, base, shapes=shapes, focus=focus, kinds=kinds)
+    remote = edit(rng, base, shapes=shapes, focus=focus, kinds=kinds)
     return base, local, remote
